@@ -98,9 +98,21 @@ func cmdCheck(args []string) int {
 	fs.StringVar(&o.funcSub, "func", "", "only functions whose name contains this")
 	fs.BoolVar(&o.verbose, "v", false, "verbose")
 	fs.BoolVar(&o.keep, "keep", false, "keep SMT files")
+	var mutate string
+	fs.StringVar(&mutate, "mutate", "", "in-memory edit relpath::old::new (testing the checker; never written to /repo)")
+	fs.BoolVar(&o.noEvidence, "no-evidence", false, "do not write evidence / replay files")
 	fs.Parse(args)
 	if o.property == "" {
 		usage()
+	}
+	if mutate != "" {
+		ov, err := mutationOverlay(o.repo, mutate)
+		if err != nil {
+			fmt.Println("bad -mutate:", err)
+			return 2
+		}
+		o.overlay = ov
+		o.noEvidence = true
 	}
 	o.seed, _ = strconv.Atoi(envOr("VERIF_SEED", "0"))
 	out := runCheck(o)
@@ -483,3 +495,19 @@ func writeEvidence(o checkOpts, results []*FuncResult, all []*Oblig, nObl, nDis 
 }
 
 func round3(f float64) float64 { return float64(int64(f*1000+0.5)) / 1000 }
+
+func mutationOverlay(repo, spec string) (map[string][]byte, error) {
+	parts := strings.SplitN(spec, "::", 3)
+	if len(parts) != 3 {
+		return nil, fmt.Errorf("want relpath::old::new")
+	}
+	path := filepath.Join(repo, parts[0])
+	src, err := os.ReadFile(path)
+	if err != nil {
+		return nil, err
+	}
+	if n := strings.Count(string(src), parts[1]); n != 1 {
+		return nil, fmt.Errorf("pattern occurs %d times in %s (want exactly 1)", n, parts[0])
+	}
+	return map[string][]byte{path: []byte(strings.Replace(string(src), parts[1], parts[2], 1))}, nil
+}
